@@ -95,6 +95,14 @@ func TestVerifDriver(t *testing.T) {
 				do("path.String", M{"path": p})
 			}
 		}
+		// every byte value at every structural position of a path string (as marker, instead of the marker, inside the
+		// digits, instead of the separator / the prefix, at both ends): only digits, H, ' and / mean anything
+		for b := 0; b < 256; b++ {
+			c := string([]byte{byte(b)})
+			for _, t := range []string{"m/44" + c, "m/44" + c + "/0", "44" + c, "44" + c + "/0'/7", c + "/1", "m" + c + "1", "m/4" + c + "4", "m/44'" + c, "m/44H" + c + "/1", c, "m/" + c, "0/" + c + "/0"} {
+				do("path.Parse", M{"s": vInts([]byte(t))})
+			}
+		}
 		r := vRand(10)
 		n := vEnvInt("VERIF_N", 500)
 		bound := []uint32{0, 1, 7, 8, 9, 10, 99, 100, 1<<31 - 1, 1 << 31, 1<<31 + 1, 1<<32 - 1, 1<<31 + 8, 1<<31 + 10}
